@@ -62,6 +62,10 @@ impl Literal<'_> {
             }
             Literal::Signed(v) => ToTokens::to_token_stream(v),
             Literal::Unsigned(v) => ToTokens::to_token_stream(v),
+            // non finite floats (`.inf`, `.nan` in YAML) have no literal form
+            Literal::Float(v) if v.is_nan() => quote!(f64::NAN),
+            Literal::Float(v) if v.is_infinite() && v.is_sign_positive() => quote!(f64::INFINITY),
+            Literal::Float(v) if v.is_infinite() => quote!(f64::NEG_INFINITY),
             Literal::Float(v) => ToTokens::to_token_stream(v),
             Literal::Bool(v) => ToTokens::to_token_stream(v),
         }
